@@ -59,6 +59,12 @@ pub struct Case {
     /// the failing command does not exit at all: its shell is killed by a signal
     #[serde(default)]
     pub killed: bool,
+    /// further sources of the same build, in other directories, that run the textually identical
+    /// `pwd` / `echo $TXTPP_FILE` commands (default shell only)
+    #[serde(default)]
+    pub siblings: u8,
+    #[serde(default)]
+    pub siblings_first: bool,
 }
 
 fn gen_case(c: &mut Choices) -> Case {
@@ -99,6 +105,8 @@ fn gen_case(c: &mut Choices) -> Case {
         input_by_output_name: c.chance(1, 2),
         fails_once: c.chance(1, 2),
         killed: c.chance(1, 4),
+        siblings: if c.chance(1, 2) { 1 + c.below(2) as u8 } else { 0 },
+        siblings_first: c.chance(1, 2),
     }
 }
 
@@ -189,6 +197,16 @@ pub fn check(case: &Case, st: &mut Stats) -> Check {
         text.push_str(&format!("-TXTPP#run {failing_cmd}\n"));
     }
     std::fs::write(&source, &text).expect("write source");
+    // (directory, source, output, input name)
+    let mut sibs: Vec<(PathBuf, PathBuf, PathBuf, String)> = vec![];
+    if case.dumper.is_none() {
+        for k in 0..case.siblings.min(2) {
+            let d = base_abs.join(format!("sib{k}"));
+            std::fs::create_dir_all(&d).expect("mkdir");
+            std::fs::write(d.join("t.txt.txtpp"), "-TXTPP#run pwd\n+TXTPP#run echo $TXTPP_FILE\nB\n").expect("write sibling");
+            sibs.push((d.clone(), d.join("t.txt.txtpp"), d.join("t.txt"), format!("sib{k}/t.txt.txtpp")));
+        }
+    }
     let command = args.join(" ");
     let echo_words: Vec<&str> = command.split_whitespace().skip(1).collect();
     // shell
@@ -219,7 +237,11 @@ pub fn check(case: &Case, st: &mut Stats) -> Check {
         trailing_newline: true,
         threads: case.threads,
         recursive: false,
-        inputs: vec![input],
+        inputs: if case.siblings_first {
+            sibs.iter().map(|s| s.3.clone()).chain(std::iter::once(input)).collect()
+        } else {
+            std::iter::once(input).chain(sibs.iter().map(|s| s.3.clone())).collect()
+        },
         shell,
     };
     // cwd and base as given
@@ -347,6 +369,20 @@ pub fn check(case: &Case, st: &mut Stats) -> Check {
             if lines[3] != echo_words.join(" ") {
                 return viol("C17 wrong-command", format!("command {command:?} printed {:?}, expected {:?}", lines[3], echo_words.join(" ")));
             }
+            for (d, s, o, _) in &sibs {
+                let got = std::fs::read_to_string(o).unwrap_or_default();
+                let lines: Vec<&str> = got.lines().collect();
+                let dc = d.canonicalize().unwrap().display().to_string();
+                if lines.len() != 3 || lines[0] != dc || lines[2] != "B" {
+                    return viol(
+                        "C17 wrong-cwd sibling",
+                        format!("a second source of the same build, {}, runs `pwd` too: its output is {got:?}, its directory is {dc:?}", s.display()),
+                    );
+                }
+                if !designates(&base_abs, lines[1], s) {
+                    return viol("C17 wrong-txtpp-file sibling", format!("TXTPP_FILE was {:?} in a command of {}", lines[1], s.display()));
+                }
+            }
         }
         Some(extra) => {
             let recs = parse_dump(&std::fs::read_to_string(&dump_log).unwrap_or_default());
@@ -417,7 +453,7 @@ impl Prop for C17 {
         PropMeta {
             id: "C17",
             level: "exploration",
-            rule: "cases = source at depth 0-3 below the base directory x entry point {library in-process with absolute base and unrelated cwd; library in a child process with cwd == base ('.'), cwd below base ('../..'), unrelated cwd (absolute base), cwd above base (relative name); the txtpp binary; the binary with TXTPP_FILE already set} x shell {default sh -c; an argv-dumping script with 0-2 extra configured arguments} x multi-line commands (0-3 continuation lines, prefix or space form, leading/trailing blanks) x exit status (0; 1-255 with the usual suspects favoured; a command that fails only the first time it runs and logs each execution; a shell killed by a signal) x input named by source or output name. Oracle: `pwd` (or the dumper's cwd record) equals the canonical directory of the source; TXTPP_FILE joined to the base designates the source (absolute or base-relative accepted); the dumper received exactly the configured arguments followed by ONE argument equal to the lines joined by single spaces; stdout is spliced into the output; non-zero status fails the run (and the binary's exit status is non-zero); with TXTPP_FILE set the binary exits non-zero and changes nothing. Non-trivial = depth >=1 with base != cwd, or overridden shell, or multi-line command; distinct by hash.",
+            rule: "cases = source at depth 0-3 below the base directory x entry point {library in-process with absolute base and unrelated cwd; library in a child process with cwd == base ('.'), cwd below base ('../..'), unrelated cwd (absolute base), cwd above base (relative name); the txtpp binary; the binary with TXTPP_FILE already set} x shell {default sh -c; an argv-dumping script with 0-2 extra configured arguments} x multi-line commands (0-3 continuation lines, prefix or space form, leading/trailing blanks) x exit status (0; 1-255 with the usual suspects favoured; a command that fails only the first time it runs and logs each execution; a shell killed by a signal) x input named by source or output name x 0-2 further sources in other directories of the same build running the textually identical `pwd` / `echo $TXTPP_FILE` commands. Oracle: `pwd` (or the dumper's cwd record) equals the canonical directory of the source; TXTPP_FILE joined to the base designates the source (absolute or base-relative accepted); the dumper received exactly the configured arguments followed by ONE argument equal to the lines joined by single spaces; stdout is spliced into the output; non-zero status fails the run (and the binary's exit status is non-zero); with TXTPP_FILE set the binary exits non-zero and changes nothing. Non-trivial = depth >=1 with base != cwd, or overridden shell, or multi-line command; distinct by hash.",
             assumptions: vec!["the README says TXTPP_FILE is absolute while a repository fixture pins a base-relative value: only 'designates the source' is asserted"],
             hang_is_violation: false,
             needs_cli: true,
